@@ -175,7 +175,7 @@ func workMain(fs *flag.FlagSet, args []string) {
 				h.Count++
 				continue
 			}
-			if unknownPerClass[v.Class+"|"+v.Key] < 2 {
+			if unknownPerClass[v.Class+"|"+v.Key] < 4 {
 				unknownPerClass[v.Class+"|"+v.Key]++
 				o.Unknown = append(o.Unknown, rec)
 			}
@@ -186,7 +186,7 @@ func workMain(fs *flag.FlagSet, args []string) {
 		if *deadline > 0 && time.Now().Unix() >= *deadline {
 			break
 		}
-		if len(o.Unknown) >= 24 {
+		if len(o.Unknown) >= 60 {
 			break
 		}
 		s := runSeed(*seed, p.ID, idx)
